@@ -43,6 +43,7 @@ def main():
     prop = sys.argv[2].upper()
     run_all = "--all" in sys.argv
     skip = "--skip-confirm" in sys.argv
+    scratch = "--scratch" in sys.argv     # run the checks against a patched scratch worktree (VERIF_REPO_SRC), leave /repo alone
     patch = os.path.join(d, "patch.diff")
     demo_path = os.path.join(d, "demo.py")
     meta = {"property": prop, "patch": "patch.diff", "demo": "demo.py"}
@@ -80,32 +81,45 @@ def main():
     if not meta.get("confirmed", True):
         json.dump(meta, open(os.path.join(d, "meta.json"), "w"), indent=1)
         return 3
-    st = sh(["git", "-C", "/repo", "status", "--porcelain"]).stdout.decode().strip()
-    if st:
-        print("REFUSING: /repo is not clean:", st)
-        return 2
-    ap = sh(["git", "-C", "/repo", "apply", patch])
+    target = "/repo"
+    if scratch:
+        target = "/dev/shm/try-seeded-%d" % os.getpid()
+        sh(["git", "-C", "/repo", "worktree", "add", "--detach", "-q", target, "HEAD"])
+    else:
+        st = sh(["git", "-C", "/repo", "status", "--porcelain"]).stdout.decode().strip()
+        if st:
+            print("REFUSING: /repo is not clean:", st)
+            return 2
+    ap = sh(["git", "-C", target, "apply", patch])
     if ap.returncode != 0:
-        print("patch does not apply to /repo:", ap.stdout.decode()[-300:])
+        print("patch does not apply:", ap.stdout.decode()[-300:])
+        if scratch:
+            sh(["git", "-C", "/repo", "worktree", "remove", "--force", target])
         return 3
     results = {}
     try:
         todo = [prop] + ([p for p in ALL if p != prop] if run_all else [])
         for p in todo:
             env = dict(os.environ, VERIF_NO_EVIDENCE="1")
+            if scratch:
+                env["VERIF_REPO_SRC"] = os.path.join(target, "src")
             r = sh([os.path.join(HERE, "check"), p, "--tier", "quick"], cwd=HERE, env=env, timeout=1500)
             out = r.stdout.decode("utf-8", "replace")
             kinds = sorted(set(l.split("violation kind=")[1].split(":")[0] for l in out.splitlines() if l.startswith("violation kind=")))
             results[p] = {"exit": r.returncode, "kinds": kinds}
             print("  %s exit=%s %s" % (p, r.returncode, kinds))
     finally:
-        sh(["git", "-C", "/repo", "checkout", "--", "."])
+        if scratch:
+            sh(["git", "-C", "/repo", "worktree", "remove", "--force", target])
+            shutil.rmtree(target, ignore_errors=True)
+        else:
+            sh(["git", "-C", "/repo", "checkout", "--", "."])
         for f in os.listdir(os.path.join(HERE, "replays")):
             if f.endswith(".json"):
                 os.unlink(os.path.join(HERE, "replays", f))
     meta["checks_quick"] = results
     meta["caught_by"] = sorted(p for p, r in results.items() if r["exit"] == 1)
-    meta["what_was_run"] = "tools/try_seeded.py: scratch-worktree confirmation (suite + demo with and without the patch), then `git -C /repo apply`, ./check <ID> --tier quick, `git -C /repo checkout -- .`"
+    meta["what_was_run"] = "tools/try_seeded.py: scratch-worktree confirmation (suite + demo with and without the patch), then " + ("a patched scratch worktree via VERIF_REPO_SRC (a background run was using /repo)" if scratch else "`git -C /repo apply`") + ", ./check <ID> --tier quick, undo"
     json.dump(meta, open(os.path.join(d, "meta.json"), "w"), indent=1)
     print("caught by:", meta["caught_by"])
     return 0
